@@ -70,6 +70,26 @@ def main():
         if os.environ.get("VF_FLOAT_MODEL", "real") == "real":
             from crosshair.libimpl import builtinslib as _bl
             _bl._PYTYPE_TO_WRAPPER_TYPE[float] = ((_bl.RealBasedSymbolicFloat, 1.0),)
+            # CrossHair caps every analysis that created a real-based float at UNKNOWN ("reals are not
+            # floats").  Exact-real arithmetic is this framework's stated float model, so the cap is lifted;
+            # a path that concretises a value (realisation) is still reported as not exhaustive.
+            from crosshair.statespace import StateSpace as _SS
+            _SS.cap_result_at_unknown = lambda self: None
+        # formatting stub: f-strings of the code under test (error messages, log lines) concretise every
+        # symbolic value they print, which turns one path into one path per value.  Messages are never the
+        # subject of a property here, so format() of anything but a concrete primitive yields a placeholder.
+        if os.environ.get("VF_FORMAT_STUB", "1") == "1":
+            import crosshair.core as _core
+            from crosshair.tracers import NoTracing as _NoTracing
+            _orig_format = _core._PATCH_REGISTRATIONS.get(format)
+
+            def _vf_format(obj, format_spec=""):
+                with _NoTracing():
+                    prim = type(obj) in (int, float, str, bool, type(None)) and type(format_spec) is str
+                if prim:
+                    return _orig_format(obj, format_spec) if _orig_format else format(obj, format_spec)
+                return "<?>"
+            _core._PATCH_REGISTRATIONS[format] = _vf_format
         stats = collections.Counter()
         opts = AnalysisOptionSet(
             analysis_kind=(AnalysisKind.PEP316,),
